@@ -76,6 +76,16 @@ func hdNT(cls int) int {
 	return 1
 }
 
+// a copy with len == cap, so that reading past the end panics instead of seeing a neighbour's bytes
+func hdExact(b []byte) []byte {
+	if b == nil {
+		return nil
+	}
+	c := make([]byte, len(b))
+	copy(c, b)
+	return c
+}
+
 func hdHex(b []byte) string { return "(hx " + u.Hex(b) + ")" }
 
 var (
@@ -111,6 +121,7 @@ func hdInvariantCIDLens(in []byte) (dl, sl int, ok bool) {
 }
 
 func (g *hdGen) doLong(in []byte, bucket string) (hdr *wire.Header, ok bool) {
+	in = hdExact(in)
 	detail := fmt.Sprintf("input=%x", in)
 	var h1, h2 *wire.Header
 	var e1, e2 error
@@ -194,6 +205,7 @@ func (g *hdGen) doLong(in []byte, bucket string) (hdr *wire.Header, ok bool) {
 }
 
 func (g *hdGen) connID(in []byte, k int) (c protocol.ConnectionID, err error) {
+	in = hdExact(in)
 	defer func() {
 		if e := recover(); e != nil {
 			err = fmt.Errorf("panic: %v", e)
@@ -204,6 +216,7 @@ func (g *hdGen) connID(in []byte, k int) (c protocol.ConnectionID, err error) {
 
 // Header.ParseExtended on ext (normally the same bytes with header protection removed)
 func (g *hdGen) doExt(in, ext []byte, h *wire.Header, bucket string, log bool) (*wire.ExtendedHeader, error) {
+	ext = hdExact(ext)
 	detail := fmt.Sprintf("input=%x ext=%x", in, ext)
 	if len(ext) == 0 {
 		// data[0] of an empty slice panics; unpackLongHeader guarantees len(data) >= ParsedLen+20 (the model says class 20).
@@ -518,6 +531,7 @@ func (g *hdGen) doShortAppend(cid []byte, pn int64, pnLen int, kp protocol.KeyPh
 }
 
 func (g *hdGen) doShortParse(in []byte, cidLen int, bucket string) (l int, pn protocol.PacketNumber, pnLen protocol.PacketNumberLen, kp protocol.KeyPhaseBit, err error) {
+	in = hdExact(in)
 	detail := fmt.Sprintf("cidLen=%d input=%x", cidLen, in)
 	panicked := false
 	func() {
@@ -576,6 +590,7 @@ func (g *hdGen) doShortParse(in []byte, cidLen int, bucket string) (l int, pn pr
 // ---------------------------------------------------------------------------------------
 
 func (g *hdGen) doConnID(in []byte, k int) {
+	in = hdExact(in)
 	detail := fmt.Sprintf("shortLen=%d input=%x", k, in)
 	var c protocol.ConnectionID
 	var err error
@@ -601,9 +616,47 @@ func (g *hdGen) doConnID(in []byte, k int) {
 	if cls != 0 && c.Len() != 0 {
 		g.monfail("headers/connid", "ParseConnectionID returns a connection ID together with an error", detail)
 	}
+	if cls == 0 { // the connection ID is where the invariants (RFC 8999) put it
+		var want []byte
+		if wire.IsLongHeaderPacket(in[0]) {
+			if len(in) >= 6 && len(in) >= 6+int(in[5]) {
+				want = in[6 : 6+int(in[5])]
+			}
+		} else if len(in) >= 1+k {
+			want = in[1 : 1+k]
+		}
+		if want == nil || !bytes.Equal(c.Bytes(), want) {
+			g.monfail("headers/connid", fmt.Sprintf("ParseConnectionID = %s, the packet has %x", c, want), detail)
+		}
+	}
+}
+
+// ParseConnectionID around the minimal lengths: long header with a dl byte connection ID cut to 5+dl-1 .. 5+dl+2
+// bytes, short header with k expected bytes cut to k-1 .. k+2 bytes
+func (g *hdGen) connIDBoundaries() {
+	for _, dl := range []int{0, 1, 2, 8, 19, 20, 21, 255} {
+		full := append([]byte{0xc0 | byte(g.r.Intn(64)), 0, 0, 0, 1, byte(dl)}, g.r.Bytes(dl+3)...)
+		for n := 4 + dl; n <= 8+dl; n++ {
+			if n >= 0 && n <= len(full) {
+				g.doConnID(full[:n], int(g.r.Pick(0, 8)))
+			}
+		}
+		for n := 0; n <= 6 && n < len(full); n++ {
+			g.doConnID(full[:n], 0)
+		}
+	}
+	for _, k := range []int{0, 1, 4, 8, 20} {
+		full := append([]byte{0x40 | byte(g.r.Intn(64))}, g.r.Bytes(k+3)...)
+		for n := k - 1; n <= k+3; n++ {
+			if n >= 0 && n <= len(full) {
+				g.doConnID(full[:n], k)
+			}
+		}
+	}
 }
 
 func (g *hdGen) doPreds(in []byte) {
+	in = hdExact(in)
 	detail := fmt.Sprintf("input=%x", in)
 	defer func() {
 		if x := recover(); x != nil {
@@ -645,6 +698,7 @@ func hdVersionList(vs []protocol.Version) string {
 func hdIsReserved(v protocol.Version) bool { return uint32(v)&0x0f0f0f0f == 0x0a0a0a0a }
 
 func (g *hdGen) doVNParse(in []byte, bucket string) (dst, src protocol.ArbitraryLenConnectionID, vs []protocol.Version, err error) {
+	in = hdExact(in)
 	detail := fmt.Sprintf("input=%x", in)
 	panicked := false
 	func() {
@@ -860,8 +914,11 @@ func runHeaders(w *bufio.Writer, seed uint64, n int, _ []string) {
 	sweep := 0
 	for _, v := range []protocol.Version{protocol.Version1, protocol.Version2} {
 		for _, ty := range hdTypes {
-			for _, dl := range hdCIDLens {
-				for _, sl := range hdCIDLens {
+			for di, dl := range hdCIDLens {
+				for si, sl := range hdCIDLens {
+					if sweep%4 != 0 && (di+si+sweep)%4 != 0 { // all 16 pairs for two (version, type) combinations, a diagonal for the others
+						continue
+					}
 					g.doAppend(g.mkExt(ty, v, dl, sl, int(r.Pick(0, 1, 5)), int64(r.Intn(100)), r.Range(1, 4), int64(r.U64()>>uint(r.Intn(64)))), v, "cid-sweep")
 				}
 			}
@@ -940,6 +997,8 @@ func runHeaders(w *bufio.Writer, seed uint64, n int, _ []string) {
 		g.doConnID([]byte{0x40}, cl)
 		g.doConnID(append([]byte{0xc1}, r.Bytes(30)...), cl)
 	}
+
+	g.connIDBoundaries()
 
 	// Version Negotiation
 	vsets := [][]protocol.Version{{protocol.Version1}, {protocol.Version1, protocol.Version2}, {protocol.Version2, protocol.Version1}, {}, {0x0a0a0a0a, 1, 1}, {0xffffffff, 0, 0x12345678, 0xff00001d}}
